@@ -24,21 +24,24 @@ def run(pid, tier, replay=None, repo=None, quiet=False, write=True):
     t0 = time.time()
     seed = int(os.environ.get("VERIF_SEED", "0") or 0)
     out = []
+    chk = None
+    audit = None
+    aerr = None
     try:
         prog = Program() if repo is None else Program(repo)
         chk = Check(pid, prog, tier=tier, inline_depth=2 if tier == "quick" else 4)
         registry.run_property(pid, chk)
-        audit = None
         if tier == "thorough" and replay is None:
             from btlint import audit as audit_mod
 
             audit = audit_mod.run_audit(pid, seed)
     except AnalysisError as e:
-        print("ANALYSIS-ERROR property=%s %s" % (pid, e))
-        return 2
+        aerr = "ANALYSIS-ERROR property=%s %s" % (pid, e)
     except Exception:
-        print("ANALYSIS-ERROR property=%s internal error: %s" % (pid, traceback.format_exc().strip().splitlines()[-1]))
+        aerr = "ANALYSIS-ERROR property=%s internal error: %s" % (pid, traceback.format_exc().strip().splitlines()[-1])
         traceback.print_exc(file=sys.stderr)
+    if aerr is not None and (chk is None or not chk.violations):
+        print(aerr)
         return 2
     known = load_known()
     listed = {(k["rule"], k["module"], k["host"], k["key"]): k for k in known.get("findings", []) if k.get("property") == pid}
@@ -70,6 +73,11 @@ def run(pid, tier, replay=None, repo=None, quiet=False, write=True):
         if v.found is not None:
             print("    found:    %s" % v.found)
         code = 1
+    if aerr is not None:
+        # violations were already established before the analysis gave up: report them, and the error
+        print(aerr)
+        if code == 0:
+            return 2
     if audit is not None:
         for line in audit.get("lines", []):
             print(line)
